@@ -45,7 +45,8 @@ def err(x):
 
 
 def is_opt(v):
-    return isinstance(v, Enum) and getattr(v, "name", None) in ("Some", "None")
+    # (the crate's cons cell is GenericPair::Some / Empty: a variant called Some of another type is not an Option)
+    return isinstance(v, Enum) and getattr(v, "name", None) in ("Some", "None") and "Option" in (getattr(v, "adt", None) or "Option")
 
 
 def is_res(v):
@@ -781,6 +782,17 @@ class Machine:
                 return UNKNOWN
             if end in ("to_lowercase", "to_uppercase", "to_ascii_lowercase", "to_ascii_uppercase"):
                 return a0.lower() if "lower" in end else a0.upper()
+            if end in ("replace", "replacen") and len(a) >= 3:
+                pat = chr(a[1]) if isinstance(a[1], int) and not isinstance(a[1], bool) else a[1]
+                if isinstance(pat, str) and pat and isinstance(a[2], str):
+                    return a0.replace(pat, a[2]) if end == "replace" else (a0.replace(pat, a[2], a[3]) if len(a) > 3 and isinstance(a[3], int) else UNKNOWN)
+                return UNKNOWN
+            if end == "is_empty":
+                return a0 == ""
+            if end == "len":
+                return len(a0.encode("utf-8"))
+            if end == "repeat" and len(a) > 1 and isinstance(a[1], int):
+                return a0 * a[1]
         if c.endswith("itertools::process_results") and len(a) == 2:
             # itertools::process_results(iter of Result<T, E>, |ok_values| ..): the closure sees the Ok payloads up to the first Err
             src = a0 if isinstance(a0, Iter) else (Iter(a0) if type(a0) is list else (self.materialize(a0) if isinstance(a0, Enum) else None))
